@@ -244,9 +244,56 @@ def stdMaxDist (R : α) (lats lons : List α) : α :=
   let diam : α := sqrt (dx * dx + dy * dy + dz * dz)
   chordal_to_great_circle R diam / ((3:Nat):α)
 
-/-- `np.linspace(0, max_dist, num = n + 1)` : `i * (max_dist / n)`, last entry exactly `max_dist` -/
+/-- `np.linspace(0, max_dist, num = n + 1)` : `i * (max_dist / n)`, last entry exactly `max_dist`
+    (`num = 1`: the single entry is the start `0`) -/
 def linspace0 (maxd : α) (n : Nat) : List α :=
-  (List.range (n + 1)).map fun i => if i = n then maxd else ((i:Nat):α) * (maxd / ((n:Nat):α))
+  if n = 0 then [((0:Nat):α)]
+  else (List.range (n + 1)).map fun i => if i = n then maxd else ((i:Nat):α) * (maxd / ((n:Nat):α))
+
+/-! ### `standard_bins` with all its arguments (`bin_no`, `max_dist`, `latlon`, `geo_scale`, `pos`)
+
+Every length crossing this interface is in the unit of `geo_scale` (`R`): the `max_dist` argument and the
+returned edges.  The automatic cut-off of the lat-lon branch is computed on the sphere of radius `R`
+(`latlon2pos(pos, radius = geo_scale)`, `chordal_to_great_circle(diam, geo_scale)`), so it is in that unit
+too; a given `max_dist` is used as it is. -/
+
+/-- `box[:, 0] - box[:, 1]` of one axis: `min − max` -/
+def axisExt (xs : List α) : α :=
+  let x0 := xs.headD ((0:Nat):α)
+  minList xs x0 - maxList xs x0
+
+/-- `np.linalg.norm(box[:, 0] - box[:, 1])`, `axes` = list of coordinate axes (`dim` lists of `pnt_cnt` values) -/
+def boxDiam (axes : List (List α)) : α :=
+  sqrt ((axes.map fun xs => axisExt xs * axisExt xs).foldl (fun a b => a + b) ((0:Nat):α))
+
+/-- the three coordinate axes of `latlon2pos(pos, radius = R)` for `axes = [lats, lons]` -/
+def sphereAxes (R : α) (axes : List (List α)) : List (List α) :=
+  let ps : List (P3 α) := ((axes.getD 0 []).zip (axes.getD 1 [])).map fun q => latlon2pos R q.1 q.2
+  [ps.map P3.x, ps.map P3.y, ps.map P3.z]
+
+/-- `diam` of `standard_bins`: bounding-box diameter; for lat-lon input of the 3-D points on the sphere of radius
+    `geo_scale`, converted to a great-circle distance (unit of `geo_scale`) -/
+def stdDiam (latlon : Bool) (R : α) (axes : List (List α)) : α :=
+  if latlon then chordal_to_great_circle R (boxDiam (sphereAxes R axes)) else boxDiam axes
+
+/-- `standard_bins(pos, dim, latlon, bin_no = binNo, max_dist = maxDist, geo_scale = R)` for unstructured `pos`
+    (`pos = none`: no position tuple; for lat-lon `axes = [lats, lons]`).  The position tuple is only looked at when
+    one of `bin_no` / `max_dist` is missing; then its absence is a `ValueError`. -/
+def standardBins (latlon : Bool) (R : α) (pos : Option (List (List α))) (binNo : Option Nat) (maxDist : Option α) :
+    Except String (List α) :=
+  match binNo, maxDist with
+  | some n, some m => .ok (linspace0 m n)
+  | _, _ =>
+    match pos with
+    | none => .error "ValueError"
+    | some axes =>
+      let n : Nat := match binNo with
+        | some n => n
+        | none => sturges (axes.headD []).length
+      let m : α := match maxDist with
+        | some m => m
+        | none => stdDiam latlon R axes / ((3:Nat):α)
+      .ok (linspace0 m n)
 
 /-! ### driver operations -/
 
@@ -316,6 +363,23 @@ def ops (op : String) (j : Json) : Option (Except String Json) :=
       let R ← getF j "R"; let lat ← getFloats j "lat"; let lon ← getFloats j "lon"
       let n := sturges lat.size
       return Json.arr #[Json.num (JsonNumber.fromNat n), fl (linspace0 (stdMaxDist R lat.toList lon.toList) n)])
+  | "ll_std_bins2" => some (do
+      -- standard_bins with all arguments; absent keys = None; pos is axis-major (dim axes of P values)
+      let latlon ← getBool j "latlon"; let R ← getF j "R"
+      let pos : Option (List (List Float)) ← match j.getObjVal? "pos" with
+        | .ok (Json.arr _) => do
+            let dim ← getNat j "dim"; let np ← getNat j "P"; let x ← getFloats j "pos"
+            pure (some ((List.range dim).map fun d => (List.range np).map fun p => x[d * np + p]!))
+        | _ => pure none
+      let binNo : Option Nat ← match j.getObjVal? "bin_no" with
+        | .ok (Json.num _) => do let n ← getNat j "bin_no"; pure (some n)
+        | _ => pure none
+      let maxDist : Option Float ← match j.getObjVal? "max_dist" with
+        | .ok (Json.num _) => do let m ← getF j "max_dist"; pure (some m)
+        | _ => pure none
+      match standardBins latlon R pos binNo maxDist with
+      | .ok e => return fl e
+      | .error e => return Json.str e)
   | "ll_krige" => some (do
       -- covariance block of the kriging matrix and right-hand side, Exponential covariance
       let R ← getF j "R"; let temporal ← getBool j "temporal"; let anis ← getFloats j "anis"
